@@ -243,12 +243,28 @@ class ProjectLambda(_MomentBase):
     def on_subscript(self, eng, st, node, base, index):
         if base is self.lam and index in ("+", "-"):
             f = self.LP if index == "+" else self.LM
-            return Nd(f"lambda[{index}]", (L,), "series", "USER", cell=lambda j, f=f: f(j), pairs=True)
+            return Nd(f"lambda[{index}]", (L,), "series", "USER", cell=lambda j, f=f: f(j), pairs=True, half=index)
         return super().on_subscript(eng, st, node, base, index)
+
+    # positions: the '+' block stores the pair with label LABP(p) at position p, the '-' block LABM(p) - the caller's Series need not keep both blocks in the same order
+    def positional(self, v):
+        lab = Function("label_at_position_of_the_plus_block" if v.half == "+" else "label_at_position_of_the_minus_block", IntSort(), IntSort())
+        c = v.cell
+        return Nd(f"values({v.name})", v.shape, "ndarray", "ERASED", cell=lambda p: c(lab(p)), positional=True)
+
+    def on_attr(self, eng, st, node, base, attr):
+        if is_nd(base) and getattr(base, "pairs", False) and getattr(base, "half", None) and attr == "values":
+            return self.positional(base)
+        if is_nd(base) and getattr(base, "pairs", False) and getattr(base, "half", None) and attr == "index":
+            return Abstract("index_of_half", half=base.half)
+        return super().on_attr(eng, st, node, base, attr)
 
     def on_binop(self, eng, st, node, op, a, b):
         if op == "neg" and is_nd(a) and getattr(a, "cell", None):
             return self._derive(a, name=f"-{a.name}", cell=lambda *ix, c=a.cell: -c(*ix))
+        if op in ("Sub", "Add") and is_nd(a) and is_nd(b) and getattr(a, "positional", False) and getattr(b, "positional", False):
+            from .ndmodel import _arith
+            return Nd(f"({a.name}{op}{b.name})", a.shape, "ndarray", "ERASED", cell=lambda p: _arith(op, a.cell(p), b.cell(p)), positional=True)          # element-wise BY POSITION
         if op in ("Sub", "Add") and is_nd(a) and is_nd(b) and getattr(a, "pairs", False) and getattr(b, "pairs", False):
             # both halves of lambda_vec are indexed by the same (event, group) pairs: label alignment = position alignment
             from .ndmodel import _arith
@@ -264,6 +280,16 @@ class ProjectLambda(_MomentBase):
         return super().on_store_subscript(eng, st, node, base, index, value)
 
     def on_call(self, eng, st, node, name, recv, args, kwargs):
+        if name == "to_numpy" and is_nd(recv) and getattr(recv, "pairs", False) and getattr(recv, "half", None):
+            return self.positional(recv)
+        if name in ("numpy.asarray", "numpy.array") and args and is_nd(args[0]) and getattr(args[0], "pairs", False) and getattr(args[0], "half", None):
+            return self.positional(args[0])
+        if name == "pandas.Series" and args and is_nd(args[0]) and getattr(args[0], "positional", False) and isinstance(kwargs.get("index"), Abstract) and kwargs["index"].tag == "index_of_half":
+            pos = Function("position_in_the_plus_block" if kwargs["index"].half == "+" else "position_in_the_minus_block", IntSort(), IntSort())
+            lab = Function("label_at_position_of_the_plus_block" if kwargs["index"].half == "+" else "label_at_position_of_the_minus_block", IntSort(), IntSort())
+            st.assume(lab(pos(GI)) == GI)          # position and label of the generic pair in that block (instantiated: keeps the VC quantifier free)
+            c = args[0].cell
+            return Nd("series_over_the_half_index", args[0].shape, "series", "USER", cell=lambda j: c(pos(j)), pairs=True)
         if name == "pandas.concat":
             parts, keys = args[0], kwargs.get("keys")
             return Abstract("concat", parts=list(parts.items), keys=list(keys.items) if keys is not None else None)
@@ -380,7 +406,10 @@ class LoadDataPrologue(_MomentBase):
         ut, ud = f.get("utilities"), f.get("utility_diff")
         rng = in_range((n,), (GI,))
         if self.ug:
-            out.append(("given_utilities_are_used", BoolVal(ut is self.util)))
+            # the given utilities (possibly re-stored as a float array: same values cell by cell)
+            same = (ut is self.util) or (is_nd(ut) and ut.cell is not None and tuple(ut.shape) == tuple(self.util.shape))
+            out.append(("given_utilities_are_used", (Implies(rng, And(*[to_real(ut.cell(GI, IntVal(c))) == to_real(self.util.cell(GI, IntVal(c))) for c in (0, 1)])) if same and ut is not self.util
+                                                     else BoolVal(bool(same)))))
         else:
             out.append(("default_utilities_are_zero_and_one", Implies(rng, And(to_real(ut.cell(GI, IntVal(0))) == 0, to_real(ut.cell(GI, IntVal(1))) == 1)) if is_nd(ut) and ut.cell else BoolVal(False)))
         if is_nd(ut) and ut.cell and is_nd(ud) and ud.cell:
